@@ -11,6 +11,7 @@ BYID = {p["id"]: p for p in PROPS}
 
 MUT_KINDS = {
  "r7": """- For THIS round, each change is a small piece of ordinary maintenance work whose author did not intend to touch the property at all — write it the way it would appear as a pull request, 10-60 changed lines, with a one-line commit subject in meta.json ("subject"): (a) one small FEATURE or operational improvement (a new option or environment knob, a retry, a cache, batching, a timeout change, a new log/metric that needs a value computed earlier, an early-exit fast path, support for a new input form) that breaks the property as a side effect in some situation; (b) one well-meant ROBUSTNESS or bug FIX (avoid a panic, avoid a deadlock, tolerate a missing file, ignore a "harmless" error, be lenient with an unexpected state or an old peer, make an operation idempotent) that over-corrects; (c) one PERFORMANCE or CLEAN-UP change (avoid a second pass / a lock / a sync / an allocation, merge two steps, drop a "redundant" check or a "dead" branch, reuse a value read earlier, simplify a condition) that is not equivalent in a corner case. Prefer sites that previous changes have not used; at least one of the three OUTSIDE the files named in the anchors.""",
+ "r10": """- For THIS round, write each change as a REFACTORING pull request that claims "no functional change" (15-80 changed lines, one-line commit subject in meta.json "subject") and in which one subtle slip breaks the property. Use a different refactoring for each of the three: (a) the old function name is kept as a thin wrapper of a new variant with an extra parameter (…WithContext / …WithReason / …WithOptions), the body moves to the variant, and the slip is in what the wrapper or some converted caller passes, in a default of the new parameter, or in a statement that did not make it into the variant unchanged; (b) a run of statements is extracted into one or two helpers (or a helper is inlined), a loop becomes a helper that returns early, an if-chain becomes a switch or a table, Lock/Unlock pairs become Lock+defer - and a condition, an order of effects, an early exit, a lock region or an error path comes out slightly different; (c) a dependency is put behind an interface, a function variable or a small struct of options (test seam / configuration), or a value is cached in a field, or two similar functions are merged into one with a flag - and one call site, default or branch no longer does what it did. The diff must read like an honest clean-up: a reviewer skimming it should believe the commit subject.""",
  "r9": """- For THIS round, write each change as a plausible pull request (10-60 changed lines, one-line commit subject in meta.json "subject") of one of these three kinds: (a) a PROTOCOL change between two components or processes (controller <-> replica REST API, controller <-> replica data RPC, replica <-> sync agent, controller <-> frontend, REST client <-> handler): one side changes what it assumes about the order of steps, idempotency, the meaning / unit / encoding of a field, a default, or a status code, and the other side is left as it is; (b) a change of ERROR CLASSIFICATION: which errors are fatal, retried, ignored, logged-and-continued or mapped to another error / status - including partial failure across a fan-out, EOF / not-exist / already-exists special cases, comparison with a sentinel or by message text, and what is reported to the caller versus acted upon; (c) a RESOURCE-LIFETIME or INITIALISATION-ORDER change: something is created, registered, started, closed, reset or released earlier or later than before, or is reused (file descriptor, buffer, channel, client, goroutine, map), or a zero value / default acquires a different meaning. Prefer sites that previous changes have not used; at least one of the three OUTSIDE the files named in the anchors.""",
  "r8": """- For THIS round, each change must need TWO things to go wrong together, so that a reviewer who looks at any single function sees nothing wrong: (a) one change made of TWO cooperating edits in two different functions (or files) that each look harmless alone — e.g. a helper whose contract is subtly widened plus a caller that now relies on the old contract, a value cached in one place and invalidated in another, a field whose meaning shifts, a default that changes plus a site that relied on it; the property breaks only through their combination; (b) one change on a FAULT or CANCELLATION path — what happens when a disk write, a network call, a peer, or a process dies at one specific point (partial failure among several replicas / files / steps, an error after a side effect, a clean-up that undoes too much or too little, a retry that repeats a non-idempotent step); (c) one change that is only wrong under a particular CONCURRENT schedule (a lock region narrowed, split or taken in another mode, a check moved outside the region that uses it, state read twice, a goroutine or callback that now runs at a different moment, a channel whose capacity / closing changed). Write each as a plausible pull request, 10-60 changed lines, with a one-line commit subject in meta.json ("subject"). Prefer sites that previous changes have not used; at least one of the three OUTSIDE the files named in the anchors.""",
 }
